@@ -67,8 +67,7 @@ ObsStep(e) ==
     LET E == EntrySet(e.E) IN
     /\ Cardinality(E) = Len(e.E)                             \* no key twice
     /\ e.iter = SortedPV(E)                                  \* C03: order, exactly once
-    /\ e.len = Cardinality(E) + drift                        \* C04 (drift only via finding F4)
-    /\ e.empty = (e.len = 0)
+    /\ Has(e, "nolen") \/ (e.len = Cardinality(E) + drift /\ e.empty = (e.len = 0))   \* C04 (drift only via finding F4)
     /\ \A i \in 1..Len(e.qs) :
          LET q == e.qs[i] IN
          /\ q.get = AVal(E, q.q.n)                           \* C01
@@ -105,7 +104,7 @@ Expected(e) ==
     IF e.a = "Reset" THEN [kind |-> "reset"]
     ELSE IF e.a = "Obs" THEN
         LET E == EntrySet(e.E) IN
-        [kind |-> "obs", iter |-> SortedPV(E), len |-> Cardinality(E) + drift,
+        [kind |-> "obs", iter |-> SortedPV(E), len |-> IF Has(e, "nolen") THEN e.len ELSE Cardinality(E) + drift,
          qs |-> [i \in 1..Len(e.qs) |->
                    LET q == e.qs[i] IN
                    [q |-> q.q, get |-> AVal(E, q.q.n), kv |-> AOptPV(E, q.q.n), has |-> B2S(AHas(E, q.q.n)),
